@@ -298,6 +298,15 @@ mut("C17", "expiry-without-the-30-day-boundary", INMEM, "\tif ttl > realTimeMaxD
 mut("C09", "inmem-expiry-without-the-30-day-boundary", INMEM, "\tif ttl > realTimeMaxDelta {\n\t\treturn ttl\n\t}\n", "", "R9.9", "defect F21 again")
 mut("C08", "gete-reply-expiry-before-flags", BR, "\tbinary.Write(b.writer, binary.BigEndian, response.Flags)\n\tbinary.Write(b.writer, binary.BigEndian, response.Exptime)\n", "\tbinary.Write(b.writer, binary.BigEndian, response.Exptime)\n\tbinary.Write(b.writer, binary.BigEndian, response.Flags)\n", "R8.14")
 
+# --- round 6 probes (R7.3/R7.11 byte order, R18.11, R1.18/R2.9 wiring, R4.11 expiry)
+mut("C07", "request-key-length-little-endian", BHDR, "\trh.KeyLength = binary.BigEndian.Uint16(buf[2:4])", "\trh.KeyLength = binary.LittleEndian.Uint16(buf[2:4])", "R7.11", nth=1)
+mut("C07", "set-exptime-little-endian", BCMD, "\tbinary.BigEndian.PutUint32(buf[4:8], exptime)", "\tbinary.LittleEndian.PutUint32(buf[4:8], exptime)", "R7.11")
+mut("C18", "observer-count-read-not-added", HI, "\tc := atomic.AddUint64(&h.dat.count, 1)\n", "\tc := atomic.LoadUint64(&h.dat.count) + 1\n", "R18.11")
+mut("C01", "accept-loop-swaps-the-tiers", LISTEN, "reqParser, o(l1, l2, responder))", "reqParser, o(l2, l1, responder))", "R1.18")
+mut("C02", "accept-loop-swaps-the-tiers", LISTEN, "reqParser, o(l1, l2, responder))", "reqParser, o(l2, l1, responder))", "R2.9")
+mut("C02", "batch-port-gets-l2-as-l1", "app/memproxy.go", "\t\tgo server.ListenAndServe(l, protocols, server.Default, o, h1, h2)\n\t}", "\t\tgo server.ListenAndServe(l, protocols, server.Default, o, h2, h2)\n\t}", "R2.9")
+mut("C09", "append-restores-with-the-commands-ttl", CH, "\t\tExptime: metaData.Exptime,", "\t\tExptime: cmd.Exptime,", "R9.11", "append/prepend carry no TTL: the item would never expire again")
+
 for prop, ms in sorted(M.items()):
     json.dump(ms, open(os.path.join(ROOT, "rendlint", "mutants", prop + ".json"), "w"), indent=1)
     print(prop, len([m for m in ms if m["kind"] == "mutant"]), "mutants,", len([m for m in ms if m["kind"] == "variant"]), "variants")
